@@ -152,6 +152,9 @@ class HistoryGen:
             n = rng.randint(0, 6)
             pairs = [(rng.choice(self.universe), self._val())
                      for _ in range(n)]
+            # (no one-shot iterator of pairs here: Interfaces.py documents
+            # update() for a *sequence* of pairs or an object with items();
+            # the C update_from_seq() refuses a bare iterator)
             return ('update', ((rng.choice(['DICT', 'PAIRS', 'MAP']),
                                 pairs),))
         r = rng.random()
@@ -161,14 +164,16 @@ class HistoryGen:
             return ('sinsert', (k,))
         if r < 0.85:
             ks = [rng.choice(self.universe) for _ in range(rng.randint(0, 6))]
-            return ('supdate', ((rng.choice(['LIST', 'SET', 'TUPLE']), ks),))
+            return ('supdate', ((rng.choice(['LIST', 'SET', 'TUPLE', 'ITER',
+                                             'GEN']), ks),))
         if r < 0.93:
             ks = [rng.choice(self.universe) for _ in range(rng.randint(0, 6))]
-            return ('ior', ((rng.choice(['LIST', 'SET', 'SELF', 'TREESET']),
-                             ks),))
+            return ('ior', ((rng.choice(['LIST', 'SET', 'SELF', 'TREESET',
+                                         'ITER', 'GEN']), ks),))
         ks = list(dict.fromkeys(
             rng.choice(self.universe) for _ in range(rng.randint(0, 8))))
-        return ('ixor', ((rng.choice(['LIST', 'SET', 'TREESET']), ks),))
+        return ('ixor', ((rng.choice(['LIST', 'SET', 'TREESET', 'ITER',
+                                      'GEN']), ks),))
 
     def _delete_op(self, walk, present):
         rng = self.rng
@@ -197,11 +202,17 @@ class HistoryGen:
             ks += [self.pick_key(walk, present, True)
                    for _ in range(rng.randint(1, 3))]
         if r < 0.9:
-            return ('isub', ((rng.choice(['LIST', 'SET', 'TREESET']), ks),))
+            return ('isub', ((rng.choice(['LIST', 'SET', 'TREESET', 'ITER',
+                                          'GEN']), ks),))
         if r < 0.97:
             keep = [k for k in present if rng.random() < .7] + ks[:2]
-            return ('iand', ((rng.choice(['LIST', 'SET', 'TREESET']),
-                              keep),))
+            if rng.random() < .3:
+                # repeated keys in the operand (multiplicity must not count)
+                keep = keep + [rng.choice(keep) for _ in range(
+                    rng.randint(1, 3))] if keep else keep
+                rng.shuffle(keep)
+            return ('iand', ((rng.choice(['LIST', 'SET', 'TREESET', 'ITER',
+                                          'GEN']), keep),))
         return (rng.choice(['isub', 'ixor', 'iand']), (('SELF', []),))
 
     def _read_op(self, walk, present):
@@ -218,7 +229,8 @@ class HistoryGen:
             if op == 'isdisjoint':
                 ks = [rng.choice(self.universe)
                       for _ in range(rng.randint(0, 3))]
-                return (op, (('LIST', ks),))
+                return (op, ((rng.choice(['LIST', 'ITER', 'SET', 'TREESET']),
+                              ks),))
         if op in ('len', 'bool', 'iter'):
             return (op, ())
         if op in ('minKey', 'maxKey'):
@@ -248,6 +260,13 @@ def materialize(arg, fam, impl, target, model_side):
         return b
     if tag == 'LIST':
         return list(payload)
+    if tag in ('ITER', 'GEN', 'ITERPAIRS'):
+        # one-shot operands: consumed by the first pass over them
+        if model_side:
+            return list(payload)
+        if tag == 'GEN':
+            return (x for x in list(payload))
+        return iter(list(payload))
     if tag == 'TUPLE':
         return tuple(payload)
     if tag in ('SET', 'TREESET'):
